@@ -746,7 +746,8 @@ def elementwise(op, operands, dtype=None):
         return op(*operands)
     shape = broadcast_shapes(shapes)
     nd = len(shape)
-    ops = list(operands)
+    # NumPy computes eagerly: freeze the operands' current contents (later in-place updates must not leak in)
+    ops = [o.copy() if isinstance(o, SArr) else o for o in operands]
     if dtype is None:
         dts = [o.dtype for o in ops if isinstance(o, SArr)]
         dtype = "real" if ("real" in dts or not dts) else dts[0]
